@@ -147,9 +147,9 @@ def leaf_values(t: pydsdl.PrimitiveType, storage: bool) -> typing.List[typing.An
         tiny = {16: 2.0**-24, 32: 2.0**-149, 64: 5e-324}[w]
         vals += [tiny, -tiny]
         if w == 16:
-            vals += [65536.0, -1e9, 2.0**-14, 1024.0, 0.333251953125]  # out of range / exactly representable
+            vals += [2.0**-14, 1024.0, 0.333251953125]  # exactly representable
             if storage:
-                vals += [3.4028234663852886e38]
+                vals += [65536.0, -1e9, 3.4028234663852886e38]  # out of the float16 range: saturate / overflow
         if w == 32 and storage:
             pass  # the storage type is float: nothing outside the wire range exists
         return vals
